@@ -280,6 +280,7 @@ fn run_script(sc: &Script, ctx: &mut Ctx) -> Result<(), Fail> {
     // descriptions made in phase 1, each confirmed (a probe emitted after it came through) before the next
     let mut late_names: Vec<String> = vec![];
     let mut late_confirmed = true;
+    let mut epilogue: Vec<(TcpStream, Arc<AtomicBool>, std::thread::JoinHandle<()>)> = vec![];
     let result = (|| -> Result<(), Fail> {
         for (pi, phase) in sc.phases.iter().enumerate() {
             // joins: the members of a burst all connect first, back to back
@@ -418,6 +419,63 @@ fn run_script(sc: &Script, ctx: &mut Ctx) -> Result<(), Fail> {
                 }
             }
         }
+        // epilogue (scripts with late descriptions and no stalled client): a reader connects, then a name it was sent
+        // is described AGAIN with another unit and text, then a second reader connects: "first the metadata known when
+        // it connected" is the latest description by then, not the one an earlier client was sent
+        if sc.late_describe && !late_names.is_empty() && !sc.clients.iter().any(|c| c.behaviour == Behaviour::Staller) {
+            let mut extra_bufs: Vec<Arc<Mutex<Vec<u8>>>> = vec![];
+            let mut served = true;
+            for round in 0..2 {
+                let sock = connect(port, false).map_err(|e| Fail::new("exporter-not-accepting", format!("epilogue reader {} could not connect (buffer_size {:?}): {}", round, sc.buffer, e)))?;
+                let buf: Arc<Mutex<Vec<u8>>> = Default::default();
+                let stop = Arc::new(AtomicBool::new(false));
+                let handle = spawn_reader(&sock, buf.clone(), stop.clone());
+                epilogue.push((sock, stop, handle));
+                let mut probes = 0;
+                let b2 = buf.clone();
+                served &= wait_for(deadline, || {
+                    let (tags, _) = tags_received(&b2).map_err(|e| Fail::new("stream-not-whole-frames", format!("epilogue reader {}: {}", round, e)))?;
+                    if !tags.is_empty() {
+                        return Ok(true);
+                    }
+                    if probes < 400 {
+                        emit(probe_thread, false, &mut seqs, &mut global);
+                        probes += 1;
+                    }
+                    std::thread::sleep(Duration::from_millis(3));
+                    Ok(false)
+                })?;
+                extra_bufs.push(buf);
+                if round == 0 && served {
+                    describe(&rec, &('g', late_names[0].clone(), Some(Unit::Bytes), "described again".to_string()), &mut described);
+                    // confirmed once a probe emitted after it has reached the first epilogue reader
+                    let b0 = extra_bufs[0].clone();
+                    let mut fresh: Vec<String> = vec![];
+                    served &= wait_for(deadline, || {
+                        let (got, _) = tags_received(&b0).map_err(|e| Fail::new("stream-not-whole-frames", format!("epilogue reader 0: {}", e)))?;
+                        if fresh.iter().any(|t| got.contains(t)) {
+                            return Ok(true);
+                        }
+                        if fresh.len() < 400 {
+                            fresh.push(emit(probe_thread, false, &mut seqs, &mut global));
+                        }
+                        std::thread::sleep(Duration::from_millis(3));
+                        Ok(false)
+                    })?;
+                }
+            }
+            if served {
+                ctx.nontrivial("client-connects-after-a-name-was-described-again");
+                let bytes = extra_bufs[1].lock().unwrap().clone();
+                let (events, _) = split_tcp_stream(&bytes).map_err(|e| Fail::new("stream-not-whole-frames", format!("epilogue reader 1: {}", e)))?;
+                let got = events.iter().find_map(|e| match e {
+                    TcpEvent::Metadata { name, unit, description, .. } if *name == late_names[0] => Some((unit.clone(), description.clone())),
+                    _ => None,
+                });
+                let want = (Some(Unit::Bytes.as_str().to_string()), Some("described again".to_string()));
+                ensure!(got.as_ref() == Some(&want), "metadata-not-the-latest-description", "{:?} was described (unit count, \"late\"), a client connected, it was described again (unit bytes, \"described again\") and that was confirmed by a probe; a client connecting afterwards received {:?} for it (buffer_size {:?})", late_names[0], got, sc.buffer);
+            }
+        }
         // the staller now reads everything that was kept for it
         for c in clients.iter_mut() {
             if c.spec.behaviour == Behaviour::Staller && c.open {
@@ -547,6 +605,11 @@ fn run_script(sc: &Script, ctx: &mut Ctx) -> Result<(), Fail> {
         if let Some(h) = c.reader.take() {
             let _ = h.join();
         }
+    }
+    for (sock, stop, handle) in epilogue.drain(..) {
+        stop.store(true, Ordering::Release);
+        drop(sock);
+        let _ = handle.join();
     }
     result
 }
